@@ -48,7 +48,9 @@ def matchLen : Bytes → Bytes → Nat → Nat
 /-- length of the longest `k`-periodic stretch at the head of `l` (0 if `l` has fewer than `k`
 bytes) -/
 def runLen (l : Bytes) (k : Nat) : Nat :=
-  if (l.take k).length < k then 0 else k + matchLen (l.drop k) l 0
+  match l.drop (k - 1) with
+  | [] => 0
+  | _ :: t => k + matchLen t l 0
 
 /-- best period at the head: the longest stretch, the smallest `k` on ties -/
 def bestRun (l : Bytes) : Nat × Nat :=
@@ -70,10 +72,17 @@ partial def segments (l : Bytes) (lit : Bytes) (segs : List String) : List Strin
       segments (l.drop n) [] ((hexOf (l.take k) ++ "*" ++ toString n) :: segs)
     else segments t (b :: lit) segs
 
-/-- response-side printer (canonical). -/
+/-- response-side printer (canonical).  The segmented text is used only if the request-side
+parser reads it back as exactly `l` (else plain hex), so whatever this prints denotes `l`: equal
+response lines mean equal byte strings, whatever the segmentation does. -/
 def hexC (l : Bytes) : String :=
   if (l.take compactMin).length < compactMin then hexOf l
-  else "+".intercalate (segments l [] [])
+  else
+    let segs := segments l [] []
+    if segs.any (·.contains '*') then
+      let text := "+".intercalate segs
+      if parseD text = some l then text else hexOf l
+    else hexOf l
 
 def modeOf : String → Option Mode
   | "N" => some .none | "Z" => some .zlib | "4" => some .lz4 | "E" => some .enc | "F" => some .frame
